@@ -38,7 +38,7 @@ EDGES3 = [((0, 0), (1, 0)), ((1, 0), (2, 0)), ((0, 1), (1, 1)), ((1, 1), (2, 1))
 
 
 def budget_s(tier):
-    return 600 if tier == "quick" else 3600
+    return 900 if tier == "quick" else 5400
 
 
 def edge_options(tier):
@@ -117,6 +117,9 @@ def run_shard(desc):
 def replay(case):
     res = new_result()
     res["state_keys"] = set()
+    if case.get("incremental"):
+        judge_incremental(case["incremental"], case.get("geom", {}), res, w_list=case.get("w_list", (0.0,)))
+        return res["violations"]
     judge_build(case["program"], case.get("geom", {}), case.get("style", "dir"), res, w_list=case.get("w_list", (0.0,)))
     return res["violations"]
 
@@ -170,6 +173,9 @@ def explore_drawing(prog, res, full, tier):
     for o in orders(prog, full):
         bump(res["hits"], "insertion_order")
         judge_build(o, {}, "dir", res)
+    # the same Schematic object read after every placement (drawings are built incrementally and may be read in between)
+    for o in ([list(prog), list(reversed(prog))] if full else [list(prog)]):
+        judge_incremental(o, {}, res)
     if full:
         for g in (GEOMS_THOROUGH if tier == "thorough" else GEOMS):
             bump(res["hits"], "rotate" if "theta" in g else ("translate" if "origin" in g else "rescale"))
@@ -230,6 +236,32 @@ def judge_build(prog, geom, style, res, w_list=(0.0,)):
         bump(res["extra"]["builder_errors"], "%s: %s" % (type(e).__name__, str(e)[:80]))
         return
     judge_schematic(sch, prog, case, res, w_list)
+
+
+def judge_incremental(prog, geom, res, w_list=(0.0,)):
+    """one Schematic object, extended item by item and read after every step: each reading must be that of the drawing so far"""
+    import CircuitCalculator.SimpleCircuit.Elements as elm
+    from CircuitCalculator.SimpleCircuit.DiagramTranslator import circuit_translator
+    bump(res["hits"], "read_while_drawing")
+    sch = elm.Schematic(unit=(geom or {}).get("unit", 2))
+    for k, it in enumerate(prog):
+        try:
+            adapt.extend_schematic(sch, [it], geom, "dir")
+        except Exception as e:
+            bump(res["skipped"], "builder:" + type(e).__name__)
+            return
+        prefix = prog[:k + 1]
+        res["transitions"] += 1
+        if rdw.node_names(prefix) is None:
+            try:
+                circuit_translator(sch)
+            except Exception:
+                pass
+            continue
+        n0 = len(res["violations"])
+        judge_schematic(sch, prefix, {"program": prefix, "incremental": prog, "geom": geom, "w_list": list(w_list)}, res, w_list)
+        if len(res["violations"]) > n0:
+            return
 
 
 def judge_schematic(sch, prog, case, res, w_list=(0.0,)):
